@@ -2,6 +2,7 @@
 From Coq Require Import List Ascii String Arith Lia Bool.
 Import ListNotations.
 From SP Require Import Skel Gen Expected Str Encode PathLex Format.
+From SP Require PathFS PathBridge.
 
 (* T1: the rename of a declared output goes from <temp dir>/<TempPath> to exactly the declared path; remaining files are
    decoded and moved; the temp dir is removed last; the command runs inside the task's temp dir; the place-holder strings
@@ -36,6 +37,51 @@ Proof.
   - exists d, t. split; [reflexivity|]. intro H. subst d. discriminate.
 Qed.
 
+(* ---- the property itself, on path segments and a store with directories (PathFS) ----
+   canonical output path: k leading "..", then proper segments, or absolute.  For every such path, every working
+   directory, every temp-dir name that is one proper segment, every content and every store in which the destination
+   directory exists when it lies outside the working directory, the destination not being inside the task's temp dir:
+   Task.createDirs, the command writing at the substituted placeholder from inside the temp dir, the audit write and
+   the rename of FinalizePaths succeed, and afterwards the file is at exactly the declared path and gone from the temp dir *)
+Theorem C13_out_lands : forall (cwd : list PathFS.seg) (D : PathFS.seg) (p : PathFS.opath) (c : nat) (f : PathFS.store),
+  PathFS.canonical p -> PathFS.proper D ->
+  (match p with PathFS.ORel O _ => True | _ => PathFS.is_dir f (PathFS.parent (PathFS.target cwd p)) = true end) ->
+  ~ PathFS.beneath (cwd ++ [D])%list (PathFS.target cwd p) ->
+  exists f', PathFS.task_out cwd D p c f = Some f' /\ f' (PathFS.target cwd p) = Some (PathFS.File c) /\
+             f' (cwd ++ [D] ++ PathFS.enc p)%list = None.
+Proof. exact PathFS.out_lands. Qed.
+
+(* the temp path consists of proper segments only, so from inside the temp dir it names the location beneath the temp
+   dir that FinalizePaths renames *)
+Theorem C13_temp_location : forall (cwd : list PathFS.seg) (D : PathFS.seg) (p : PathFS.opath), PathFS.canonical p ->
+  PathFS.resolve (cwd ++ [D])%list (PathFS.enc p) = (cwd ++ [D] ++ PathFS.enc p)%list.
+Proof. exact PathFS.temp_location. Qed.
+
+(* an input placeholder ("../" ++ q, for any relative q) resolves from inside the temp dir to the input itself *)
+Theorem C13_in_resolves : forall (cwd : list PathFS.seg) (D : PathFS.seg) (q : list PathFS.seg), PathFS.proper D ->
+  PathFS.resolve (cwd ++ [D])%list (PathFS.dd :: q) = PathFS.resolve cwd q.
+Proof. exact PathFS.in_resolves. Qed.
+
+(* additional files are moved to the same relative location under the working directory *)
+Theorem C13_extra_files : forall (cwd : list PathFS.seg) (D : PathFS.seg) (r : list PathFS.seg) (c : nat) (f : PathFS.store),
+  Forall PathFS.proper r -> r <> [] -> PathFS.proper D -> f (cwd ++ [D] ++ r)%list = Some (PathFS.File c) ->
+  ~ PathFS.beneath (cwd ++ [D])%list (cwd ++ r)%list ->
+  exists f', PathFS.move_extra cwd D r f = Some f' /\ f' (cwd ++ r)%list = Some (PathFS.File c) /\ f' (cwd ++ [D] ++ r)%list = None.
+Proof. exact PathFS.extra_lands. Qed.
+
+(* the bridge to the string function of the code: for every canonical path whose segments do not end in ".." (the
+   complement is finding D15), FileIP.TempPath of the rendered path, split at "/", is the segment-level encoding *)
+Theorem C13_temp_path_is_enc : forall p : PathFS.opath, PathBridge.nice p ->
+  split_sl (temp_path (PathBridge.render p)) [] = PathFS.enc p.
+Proof. exact PathBridge.temp_path_is_enc. Qed.
+
+Theorem C13_out_lands_example :
+  let cwd := [PathFS.S "w"] in let p := PathFS.ORel 1 [PathFS.S "sib"; PathFS.S "out.txt"] in
+  let f0 : PathFS.store := PathFS.put (fun _ => None) [PathFS.S "sib"] PathFS.Dir in
+  PathFS.enc p = [PathFS.S "__parent__sib"; PathFS.S "out.txt"] /\ PathFS.target cwd p = [PathFS.S "sib"; PathFS.S "out.txt"] /\
+  match PathFS.task_out cwd (PathFS.S "t") p 7 f0 with Some f' => f' [PathFS.S "sib"; PathFS.S "out.txt"] = Some (PathFS.File 7) | None => False end.
+Proof. exact PathFS.out_lands_example. Qed.
+
 (* shapes outside the canonical grammar: a directory segment that ends in ".." is folded into the file name, so the
    temp file is created at top level of the temp dir and the final rename needs the directory "a.." to exist already *)
 Theorem C13_noncanonical_refuted :
@@ -50,5 +96,11 @@ Proof. vm_compute. reflexivity. Qed.
 Print Assumptions C13_code_conforms.
 Print Assumptions C13_no_parent_in_temp_path.
 Print Assumptions C13_temp_path_relative.
+Print Assumptions C13_out_lands.
+Print Assumptions C13_temp_location.
+Print Assumptions C13_in_resolves.
+Print Assumptions C13_extra_files.
+Print Assumptions C13_temp_path_is_enc.
+Print Assumptions C13_out_lands_example.
 Print Assumptions C13_noncanonical_refuted.
 Print Assumptions C13_extra_placeholder_refuted.
